@@ -415,6 +415,24 @@ def check_override_isolation(how, acc):
             one = full['processes']['agents']['1']['p']
             two = full['processes']['agents']['2']['p']
             kept = composer.schema_override['p']['port']['x']['_default']
+        elif how == 'shared-leaf':
+            # ONE leaf dictionary declares three variables of a process
+            # (two in one port, one in another port); an override names
+            # one of them
+            leaf = {'_default': 7, '_emit': True}
+            one = probes.Probe({
+                'pid': 'a', 'ts': 1, 'update': {}, 'log_states': False,
+                'schema': {'port': {'x': leaf, 'y': leaf},
+                           'other': {'z': leaf}},
+                '_schema': {'port': {'x': {'_default': 555}}}})
+            sch = one.get_schema()
+
+            class _Two:          # the twin is variable y, 'kept' is z
+                @staticmethod
+                def get_schema():
+                    return {'port': {'x': sch['port']['y']}}
+            two = _Two
+            kept = sch['other']['z']['_default']
         elif how == 'template':
             # two processes hand out ONE schema object (a class-level
             # template); a composite-level override names one of them
@@ -945,7 +963,8 @@ def jobs(ctx):
         out.append(('state-precedence', path))
     out += [('override-isolation', 'composer'),
             ('override-isolation', 'parameters'),
-            ('override-isolation', 'template')]
+            ('override-isolation', 'template'),
+            ('override-isolation', 'shared-leaf')]
     out += [('glob-entry', path) for path in paths]
     calls = ('plain', 'config', 'path', 'initial_state', 'parameters')
     for order in itertools.permutations(calls, 3):
@@ -1013,4 +1032,4 @@ RULE += (
     " Template step-in-processes (a Step object listed under processes: it must run as a step through every entry point). State precedence: a state merged into the composite wins over the process's own initial_state() through every entry point. Composer reuse: one Composer generating twice gives independent composites. Override isolation: an override naming ONE of two processes generated from one Composer (or built from one parameters dictionary) reaches only that process.")
 
 RULE += (
-    ' Override isolation also for two processes that hand out ONE schema object (a composite-level override names one of them; the template object itself stays as it was). Glob entry: a process counts the children of a glob store that the initial state names - composite, parts, store built with the state, and store + initial_state show them from the first invocation on.')
+    ' Override isolation also for two processes that hand out ONE schema object (a composite-level override names one of them; the template object itself stays as it was), and for three variables of one process declared with ONE leaf dictionary (an override names one of them). Glob entry: a process counts the children of a glob store that the initial state names - composite, parts, store built with the state, and store + initial_state show them from the first invocation on.')
